@@ -43,6 +43,12 @@ class NtMix2(DataClassDictMixin):
     b: NT = NT(1, "x")
 
 @dataclass
+class InitF(DataClassDictMixin):
+    x: int
+    y: int = field(init=False, default=3)
+    z: List[str] = field(init=False, default_factory=list)
+
+@dataclass
 class TwoGen(DataClassDictMixin):
     x: Gen[int]
     y: Gen[str]
@@ -61,7 +67,8 @@ EXTRA = [("ntmix", "NtMix"), ("ntmix2", "NtMix2"), ("al", "Al"), ("al2", "Al2"),
          ("lit_true_1", "Literal[True, 1, 2]"), ("twogen", "TwoGen"), ("twosame", "TwoSame"), ("dict_int", "Dict[int, str]"),
          ("dict_bool", "Dict[bool, int]"), ("dict_float", "Dict[float, int]"), ("dict_enum", "Dict[Num, int]"),
          ("tstar3", "Tuple[int, Unpack[Tuple[str, str]], float]"), ("tstar4", "Tuple[Unpack[Tuple[int, ...]], str]"),
-         ("nt_list", "List[NT]"), ("opt_gen", "Optional[Gen[int]]"), ("lit_bytes", "Literal[b'x', 'y']")]
+         ("nt_list", "List[NT]"), ("opt_gen", "Optional[Gen[int]]"), ("lit_bytes", "Literal[b'x', 'y']"),
+         ("initf", "InitF"), ("initf_list", "List[InitF]")]
 
 
 def probe(s, variant):
@@ -85,11 +92,11 @@ def harnesses(tier, seed):
         if "selfref" in s.name or "_self_" in s.name:
             continue  # typing.Self is not supported by the schema generator at all (raises TypeError): outside C06, see C20
         for variant in variants:
-            has_dc = any(k in s.texpr for k in ("Mix", "Plain", "Inh", "Gen", "Al", "Two", "NT", "TDict", "OptD", "Lvl", "Nt", "OuterG"))
+            has_dc = any(k in s.texpr for k in ("Mix", "Plain", "Inh", "Gen", "Al", "Two", "NT", "TDict", "OptD", "Lvl", "Nt", "OuterG", "InitF"))
             if variant in ("d2020_refs", "oapi_inline") and not has_dc:
                 continue
             if tier == "quick" and variant == "oapi" and not any(
-                    k in s.texpr for k in ("Mix", "Plain", "Inh", "Gen", "Al", "Two", "NT", "TDict", "OptD", "SelfRef", "Lvl", "Nt", "OuterG")):
+                    k in s.texpr for k in ("Mix", "Plain", "Inh", "Gen", "Al", "Two", "NT", "TDict", "OptD", "SelfRef", "Lvl", "Nt", "OuterG", "InitF")):
                 continue  # without dataclasses the OpenAPI variant differs from Draft 2020-12 only in the dialect URI
             try:
                 probe(s, variant)
